@@ -254,6 +254,12 @@ def run(res, tier):
                     coeff.add(cir.base_var(y))
     acc = [n for n in cir.walk(fn) if n.get("k") == "CompoundAssignOperator" and n.get("op") == "+=" and
            cir.base_var(cir.kids(n)[0]) in coeff and derives(cir.kids(n)[1], "RK4_A")]
+    if not coeff and res.violations:
+        # the stage-time layout is not the recognised one, and a definite violation about d->time is already recorded
+        # (R-ONCE): that report is the verdict; the remaining layout-bound clauses are skipped
+        res.extra["stage_time_clause"] = "skipped: layout not recognised, violation already reported"
+        res.rules["R-CONST"]["floor"] = 0
+        return
     if not coeff:
         raise AnalysisError("mj_RungeKutta: stage-time computation (d->time + c*h) not found")
     if acc:
